@@ -1,6 +1,7 @@
 import LhasaV.Model.Reader
 import LhasaV.Lemmas.WrapProps
 import LhasaV.Lemmas.StreamProps
+import LhasaV.Lemmas.ReaderIndep
 /-!
 # C13 — every call returns; work and heap are bounded by bytes present and declared size
 
@@ -55,5 +56,33 @@ theorem skip_bounds (s : Stream.St) (n : Nat) :
 theorem stream_no_fault (s : Stream.St) (n : Nat) (h : s.leadin.length ≤ 24) :
     Res.NoFault (Stream.start s) ∧ Res.NoFault (Stream.read s n) :=
   ⟨Stream.start_noFault s h, Stream.read_noFault s n h⟩
+
+open Reader ReaderIndep in
+/-- **Work of one `next` is linear in the bytes present**, along any history from a fresh reader, for
+any archive: with `A` = bytes still present in the stream, a `lha_reader_next_file` makes at most
+`A/32 + (A+11)/12 + 4` source requests and pulls at most `A` bytes plus what closing the open
+decoder charges (≤ the member's remaining bytes) — the declared sizes do not appear in the bound. -/
+theorem next_work_linear (st : Stream.St) (pol : DirPolicy) (mk : Nat → Nat)
+    (hl : st.leadin.length ≤ 24) (ops : List Op) (r : Option HObj) (s' : Reader.St)
+    (e : next (run (fresh st pol mk) ops) = .ok (r, s')) :
+    s'.basic.stream.reads - (run (fresh st pol mk) ops).basic.stream.reads ≤
+      avail (run (fresh st pol mk) ops).basic.stream / 32 +
+      (avail (run (fresh st pol mk) ops).basic.stream + 11) / 12 + 4 ∧
+    s'.basic.stream.moved - (run (fresh st pol mk) ops).basic.stream.moved ≤
+      avail (run (fresh st pol mk) ops).basic.stream + closeTake (run (fresh st pol mk) ops) :=
+  ReaderIndep.next_work_history st pol mk hl ops r s' e
+
+open Reader ReaderIndep in
+/-- **Heap.** After ANY history the number of live header objects is at most 2 + the number of
+successful extracts (current + pending + directory stack + deferred list) and their heap blocks at
+most six each; on legal histories everything the reader holds — headers, strings, decoders — is at
+most `6·(2 + successful extracts) + 4` blocks. Header blocks themselves never exceed the bytes
+present (`ReaderIndep.header_raw_le`) and grow by at most 1 MiB per step (`extend_cap`). -/
+theorem heap_bounded (st : Stream.St) (pol : DirPolicy) (mk : Nat → Nat) (ops : List Op) :
+    (run (fresh st pol mk) ops).led.hdrs.length ≤ 2 + extractsOk ops ∧
+    hdrBlocks (run (fresh st pol mk) ops).led ≤ 6 * (2 + extractsOk ops) ∧
+    (Legal ops → (run (fresh st pol mk) ops).led.live ≤ 6 * (2 + extractsOk ops) + 4) :=
+  ⟨(ReaderIndep.heap_bound_headers st pol mk ops).1, (ReaderIndep.heap_bound_headers st pol mk ops).2,
+   fun hl => ReaderIndep.heap_bound st pol mk ops hl⟩
 
 end LhasaV.Props.C13
